@@ -172,6 +172,21 @@ def run(ctx):
     ctx.instance(1)
     ok = len(rems) == 1 and const_int(rems[0][1]["r"]["b"]) == 2 and "len(" in expr_str(runf.expr(rems[0][1]["r"]["a"], 6))
     if ok:
+        # ... and it is the length of the bytes that are paired into words (not the size the file system reports: a pipe or a
+        # device reports 0 and delivers any number of bytes)
+        def named_locals(e):
+            return {x[1] for x in expr_walk(e) if x[0] == "local"}
+        subj = runf.expr(rems[0][1]["r"]["a"], 8, stop={"named"})
+        lens = [x for x in expr_walk(subj) if x[0] == "call" and re.search(r"(Vec::<T, A>|\[T\]>?|slice::<impl \[T\]>)::len$", str(x[1]))]
+        src = runf.expr(ch[0][1]["args"][0], 8, stop={"named"})
+        ok = bool(lens) and bool(named_locals(lens[0]) & named_locals(src))
+        if not ok:
+            ctx.oblig(False, {"odd length": "tested on %s" % expr_str(subj, 80), "paired": expr_str(src, 80)}, "the parity test reads the length of the buffer handed to chunks_exact")
+            ctx.violation("alignment-subject", sp_file_line(rems[0][1].get("sp")),
+                          "the odd-length test looks at `%s`, not at the length of the bytes that are paired into words (`%s`): for a pipe or device the "
+                          "reported size is 0 and the stray byte is silently dropped" % (expr_str(subj, 80), expr_str(src, 80)))
+            ok = True       # reported above; the dominance clause below is still checked on its own
+    if ok:
         # find the switch on (len % 2 != 0) and its error edge
         okd = False
         for b in sorted(runf.live_blocks()):
